@@ -7,6 +7,7 @@ import ErrModel.Grpc
 import ErrModel.Basic.Redact
 import ErrModel.Engine
 import ErrModel.Report
+import ErrModel.Proto
 /-
   Observation streams printed by the driver (and, identically, by the harness
   from the real code).
@@ -191,6 +192,16 @@ def pReport (trim : List Str) (e : Err) : String :=
       match x.frames with | some fs => pList (fs.map pFrame) | none => "(nostack)"]))],
     pList ["types", pStr r.types]]
 
+mutual
+/-- the protobuf bytes of the string fields of every visible layer's details, in wire order -/
+def detBytesOf : Enc → List Str
+  | .leaf _ d _ cs => Proto.serDet d :: detBytesOfL cs
+  | .wrap _ d _ _ c => Proto.serDet d :: detBytesOf c
+def detBytesOfL : List Enc → List Str
+  | [] => []
+  | e :: r => detBytesOf e ++ detBytesOfL r
+end
+
 def obsCase (e : Option Err) (refs : List (Option Err)) (trim : List Str := []) (specs : List Str := []) : String :=
   match e with
   | none => pList ["res", "(nil)", pList ["is", pList (refs.map fun r => pOB (isOpt Full none r))]]
@@ -201,6 +212,7 @@ def obsCase (e : Option Err) (refs : List (Option Err)) (trim : List Str := []) 
     pList ["res",
       pList ["tree", pTree e],
       pList ["enc", pEnc (encode Full vfStub e)],
+      pList ["detbytes", pStrs (detBytesOf (encode Full vfStub e))],
       pList ["h1tree", pOpt pTree h1],
       pList ["h1enc", pOpt (fun x => pEnc (encode Full vfStub x)) h1],
       pList ["h2enc", pOpt (fun x => pEnc (encode Full vfStub x)) h2],
